@@ -6,9 +6,14 @@ package main
 // cover a further Go function, add it here AND (with its current hash) to the group of that model in
 // /verif/lean/Webp/Impl/Transcribed.lean (tools/update_fingerprints.py fills in the hash).
 //
-//	pkg   directory of the package relative to the repo root ("." = root package webp)
-//	recv  receiver type name for methods
-//	fn    function name
+//	pkg        directory of the package relative to the repo root ("." = root package webp)
+//	recv       receiver type name for methods
+//	fn         function name
+//	noClosure  (default false) true = do not also fingerprint what the function reaches
+//
+// Closure is ON for every entry: the generator additionally fingerprints every function of the same
+// package the entry calls (transitively) and every package-level constant / variable used on the way,
+// so helpers, worker bodies and thresholds need not be listed here (see fingerprints.go).
 //
 // The trailing comment names the lists of Transcribed.lean that use the entry.
 var fingerprintList = []fpSpec{
@@ -475,6 +480,32 @@ var fingerprintList = []fpSpec{
 	{pkg: "internal/lossless", fn: "getNextKey"},               // vp8lEntropyDec
 	{pkg: "internal/lossless", fn: "nextTableBitSize"},         // vp8lEntropyDec
 	{pkg: "internal/lossless", fn: "replicateValue"},           // vp8lEntropyDec
+	// added after seeded round 4
+	{pkg: "internal/lossless", fn: "CalculateBestCacheSize"},            // extra_C11
+	{pkg: "internal/lossless", fn: "GetHistoImageSymbols"},              // vp8lEntropyEnc, partition
+	{pkg: "internal/lossless", fn: "GetWindowSizeForHashChain"},         // partition
+	{pkg: "internal/lossless", fn: "NewHashChain"},                      // extra_C11
+	{pkg: "internal/lossless", fn: "NewHistogram"},                      // extra_C11
+	{pkg: "internal/lossless", fn: "ReuseColorCache"},                   // extra_C11
+	{pkg: "internal/lossless", fn: "allocateHistoSetReuse"},             // extra_C11
+	{pkg: "internal/lossless", fn: "fillMatchRange"},                    // partition
+	{pkg: "internal/lossless", fn: "histogramBuild"},                    // vp8lEntropyEnc, extra_C11
+	{pkg: "internal/lossless", fn: "histogramCombineEntropyBin"},        // vp8lEntropyEnc, partition
+	{pkg: "internal/lossless", fn: "histogramCombineGreedy"},            // vp8lEntropyEnc, partition
+	{pkg: "internal/lossless", fn: "histogramCombineStochastic"},        // vp8lEntropyEnc, partition
+	{pkg: "internal/lossless", fn: "newCostManager"},                    // extra_C11
+	{pkg: "internal/lossless", fn: "paletteCodeBits"},                   // extra_C11
+	{pkg: "internal/lossless", fn: "removeUnusedHistograms"},            // vp8lEntropyEnc, partition
+	{pkg: "internal/lossless", fn: "traceBackwards"},                    // extra_C11
+	{pkg: "internal/lossless", recv: "BackwardRefs", fn: "Add"},         // extra_C11
+	{pkg: "internal/lossless", recv: "BackwardRefs", fn: "Reset"},       // extra_C11
+	{pkg: "internal/lossless", recv: "ColorCache", fn: "Reset"},         // extra_C11
+	{pkg: "internal/lossless", recv: "HistoSet", fn: "clearAll"},        // extra_C11
+	{pkg: "internal/lossless", recv: "Histogram", fn: "Clear"},          // extra_C11
+	{pkg: "internal/lossless", recv: "Histogram", fn: "copyFrom"},       // extra_C11
+	{pkg: "internal/lossless", recv: "Histogram", fn: "resetStats"},     // extra_C11
+	{pkg: "internal/lossless", recv: "HuffmanScratch", fn: "AllocTree"}, // extra_C11
+	{pkg: "internal/lossless", recv: "costModelTrace", fn: "build"},     // extra_C11
 	// ---- internal/lossy ----
 	// internal/lossy/alpha.go
 	{pkg: "internal/lossy", fn: "DecodeAlpha"},                // alphaDec, extra_C17
@@ -643,4 +674,20 @@ var fingerprintList = []fpSpec{
 	{pkg: "internal/lossy", recv: "TokenBuffer", fn: "recordLevelVP8"},        // vp8ReconEnc
 	// internal/lossy/proba.go
 	{pkg: "internal/lossy", fn: "ResetProba"}, // codecFront
+	// added after seeded round 4
+	{pkg: "internal/lossy", fn: "PickBestI4Mode"},                            // extra_C11
+	{pkg: "internal/lossy", fn: "TrellisQuantizeBlock"},                      // extra_C11
+	{pkg: "internal/lossy", fn: "collectHistogramAlphaWith"},                 // partition
+	{pkg: "internal/lossy", fn: "computeMBAlphaDCTWith"},                     // partition, extra_C11
+	{pkg: "internal/lossy", fn: "computeMBUVAlphaDCTWith"},                   // partition
+	{pkg: "internal/lossy", fn: "generateI16Prediction"},                     // extra_C11
+	{pkg: "internal/lossy", fn: "isFlat"},                                    // extra_C11
+	{pkg: "internal/lossy", fn: "smoothSegmentMap"},                          // extra_C11
+	{pkg: "internal/lossy", recv: "MBIterator", fn: "FillPredictionContext"}, // extra_C11
+	{pkg: "internal/lossy", recv: "MBIterator", fn: "GetNZContext"},          // extra_C11
+	{pkg: "internal/lossy", recv: "MBIterator", fn: "SetNZ"},                 // extra_C11
+	{pkg: "internal/lossy", recv: "TokenBuffer", fn: "MarkMBStart"},          // vp8ReconEnc, extra_C10, extra_C11
+	{pkg: "internal/lossy", recv: "TokenBuffer", fn: "addPage"},              // extra_C11
+	{pkg: "internal/lossy", recv: "VP8Encoder", fn: "analysis"},              // extra_C11
+	{pkg: "internal/lossy", recv: "VP8Encoder", fn: "collectAllStats"},       // extra_C06, extra_C11
 }
